@@ -268,9 +268,9 @@ Proof.
   destruct (d_kind n); try reflexivity; rewrite Hwf in Hi by discriminate; simpl in Hi; lia.
 Qed.
 
-Lemma obs_sim doc dv iv o :
-  dom_wfb doc = true -> nav_rel doc dv iv -> quirk_obs doc dv o = false ->
-  exists v, d_obs doc dv o = Some v /\ i_obs (to_idr doc) iv o = Some v.
+Lemma obs_sim fx doc dv iv o :
+  dom_wfb doc = true -> nav_rel doc dv iv -> fx = true \/ quirk_obs doc dv o = false ->
+  exists v, d_obs fx doc dv o = Some v /\ i_obs (to_idr doc) iv o = Some v.
 Proof.
   intros Hw [Hroot Hpos] Hq.
   destruct dv as [dr dc da], iv as [ir ic]; simpl in *.
@@ -294,9 +294,11 @@ Proof.
     + eauto.
     + destruct (d_kind n); simpl; eauto.
     + unfold quirk_obs, d_nodetype in Hq; simpl in Hq. rewrite Hn in Hq.
-      destruct (d_kind n) eqn:Hk; simpl in *; try discriminate.
-      * rewrite inner_text_to_idr. eauto.
-      * rewrite inner_text_to_idr, d_inner_text_text by assumption. eauto.
+      rewrite inner_text_to_idr.
+      destruct (d_kind n) eqn:Hk; simpl in *.
+      * destruct Hq as [->|Hq]; [eauto|discriminate].
+      * eauto.
+      * rewrite d_inner_text_text by assumption. eauto.
 Qed.
 
 (* ---- moves -------------------------------------------------------------------------------------- *)
@@ -318,11 +320,11 @@ Lemma d_node_cons doc i rp :
 Proof. apply node_at_cons. Qed.
 
 (* moves from an attribute position *)
-Lemma move_sim_attr doc dr ir dc ip n i m :
+Lemma move_sim_attr fx doc dr ir dc ip n i m :
   dom_wfb doc = true -> path_rel doc dr ir -> path_rel doc dc ip -> d_node doc dc = Some n ->
-  i < length (d_attrs n) -> m <> MRoot ->
+  i < length (d_attrs n) -> fx = true \/ m <> MRoot ->
   exists dv' iv' b,
-    d_move doc (mkDNav dr dc (Some i)) m = Some (dv', b) /\
+    d_move fx doc (mkDNav dr dc (Some i)) m = Some (dv', b) /\
     i_move (to_idr doc) (mkINav ir (i :: ip)) m = Some (iv', b) /\
     nav_rel doc dv' iv'.
 Proof.
@@ -333,7 +335,10 @@ Proof.
   assert (Hsame : nav_rel doc (mkDNav dr dc (Some i)) (mkINav ir (i :: ip))).
   { split; simpl; [assumption|]. exists ip, n. auto. }
   unfold d_move, i_move; simpl. rewrite Hn, Hin. simpl.
-  destruct m; try congruence; simpl.
+  destruct m; simpl.
+  - (* MRoot: only the repaired reference gets here *)
+    destruct Hm as [->|Hm]; [|congruence]. simpl.
+    do 3 eexists; split; [reflexivity|split; [reflexivity|]]. split; simpl; assumption.
   - (* MParent *)
     do 3 eexists; split; [reflexivity|split; [reflexivity|]]. split; simpl; assumption.
   - (* MNextAttr *)
@@ -360,10 +365,10 @@ Proof.
 Qed.
 
 (* moves from a node position *)
-Lemma move_sim_node doc dr ir dc ic m :
+Lemma move_sim_node fx doc dr ir dc ic m :
   dom_wfb doc = true -> path_rel doc dr ir -> path_rel doc dc ic ->
   exists dv' iv' b,
-    d_move doc (mkDNav dr dc None) m = Some (dv', b) /\
+    d_move fx doc (mkDNav dr dc None) m = Some (dv', b) /\
     i_move (to_idr doc) (mkINav ir ic) m = Some (iv', b) /\
     nav_rel doc dv' iv'.
 Proof.
@@ -374,7 +379,8 @@ Proof.
   unfold d_move, i_move; simpl. rewrite Hn, Hin. rewrite to_idr_not_attr.
   destruct m; simpl.
   - (* MRoot *)
-    do 3 eexists; split; [reflexivity|split; [reflexivity|]]. split; assumption.
+    do 3 eexists; split; [reflexivity|split; [reflexivity|]].
+    destruct fx; split; assumption.
   - (* MParent *)
     destruct dc as [|i r]; simpl.
     + apply path_rel_nil_inv in Hr as ->. simpl.
@@ -464,10 +470,10 @@ Proof.
 Qed.
 
 (* Every move preserves the relation and reports the same success. *)
-Lemma move_sim doc dv iv m :
-  dom_wfb doc = true -> nav_rel doc dv iv -> quirk_move dv m = false ->
+Lemma move_sim fx doc dv iv m :
+  dom_wfb doc = true -> nav_rel doc dv iv -> fx = true \/ quirk_move dv m = false ->
   exists dv' iv' b,
-    d_move doc dv m = Some (dv', b) /\ i_move (to_idr doc) iv m = Some (iv', b) /\
+    d_move fx doc dv m = Some (dv', b) /\ i_move (to_idr doc) iv m = Some (iv', b) /\
     nav_rel doc dv' iv'.
 Proof.
   intros Hw [Hroot Hpos] Hq.
@@ -475,7 +481,7 @@ Proof.
   destruct da as [i|]; simpl in Hpos.
   - destruct Hpos as (ip & n & Hr & Hn & Hi & ->).
     apply move_sim_attr with (n := n); auto.
-    intros ->. discriminate Hq.
+    destruct Hq as [Hq|Hq]; [left; assumption|right]. intros ->. discriminate Hq.
   - apply move_sim_node; auto.
 Qed.
 
@@ -511,23 +517,32 @@ Lemma regs_rel_upd doc rd ri x dv iv :
   regs_rel doc rd ri -> nav_rel doc dv iv -> regs_rel doc (upd rd x dv) (upd ri x iv).
 Proof. intros H Hv y. unfold upd. destruct (Nat.eqb y x); auto. Qed.
 
-Lemma nav_programs_agree_regs R (p : prog R) : forall doc rd ri,
-  dom_wfb doc = true -> regs_rel doc rd ri -> ref_ok doc p rd ->
-  run_dom doc p rd = run_idr (to_idr doc) p ri /\ run_dom doc p rd <> None.
+(* [in_scope fx]: nothing to require of the repaired reference; ref_ok of xmlquery as it is *)
+Definition in_scope {R} (fx : bool) (doc : dnode) (p : prog R) (rd : nat -> dnav) : Prop :=
+  if fx then True else ref_ok doc p rd.
+
+Lemma nav_programs_agree_regs R (p : prog R) : forall fx doc rd ri,
+  dom_wfb doc = true -> regs_rel doc rd ri -> in_scope fx doc p rd ->
+  run_dom fx doc p rd = run_idr (to_idr doc) p ri /\ run_dom fx doc p rd <> None.
 Proof.
-  induction p as [r|x o k IH|x m k IH|x y k IH|x y k IH]; intros doc rd ri Hw Hrel Hok; simpl in *.
+  induction p as [r|x o k IH|x m k IH|x y k IH|x y k IH]; intros fx doc rd ri Hw Hrel Hok;
+    simpl in *.
   - split; [reflexivity|discriminate].
-  - destruct Hok as [Hq Hok].
-    destruct (obs_sim _ _ _ _ Hw (Hrel x) Hq) as (v & Hd & Hi).
-    rewrite Hd, Hi in *. apply IH; assumption.
-  - destruct Hok as [Hq Hok].
-    destruct (move_sim _ _ _ _ Hw (Hrel x) Hq) as (dv' & iv' & b & Hd & Hi & Hrel').
-    rewrite Hd, Hi in *. apply IH; [assumption| |assumption].
-    apply regs_rel_upd; assumption.
-  - apply IH; [assumption| |assumption]. apply regs_rel_upd; auto.
+  - assert (Hq : fx = true \/ quirk_obs doc (rd x) o = false).
+    { destruct fx; [left; reflexivity|right; apply Hok]. }
+    destruct (obs_sim fx _ _ _ _ Hw (Hrel x) Hq) as (v & Hd & Hi).
+    rewrite Hd, Hi. apply IH; try assumption.
+    destruct fx; [exact I|]. simpl in Hok. destruct Hok as [_ Hok]. rewrite Hd in Hok. exact Hok.
+  - assert (Hq : fx = true \/ quirk_move (rd x) m = false).
+    { destruct fx; [left; reflexivity|right; apply Hok]. }
+    destruct (move_sim fx _ _ _ _ Hw (Hrel x) Hq) as (dv' & iv' & b & Hd & Hi & Hrel').
+    rewrite Hd, Hi. apply IH; [assumption|apply regs_rel_upd; assumption|].
+    destruct fx; [exact I|]. simpl in Hok. destruct Hok as [_ Hok]. rewrite Hd in Hok. exact Hok.
+  - apply IH; [assumption|apply regs_rel_upd; auto|].
+    destruct fx; [exact I|exact Hok].
   - destruct (moveto_sim _ _ _ _ _ (Hrel x) (Hrel y)) as (dv' & iv' & b & Hd & Hi & Hrel').
-    rewrite Hd, Hi in *. apply IH; [assumption| |assumption].
-    apply regs_rel_upd; assumption.
+    rewrite Hd, Hi. apply IH; [assumption|apply regs_rel_upd; assumption|].
+    destruct fx; [exact I|]. simpl in Hok. rewrite Hd in Hok. exact Hok.
 Qed.
 
 Lemma init_rel doc start n :
@@ -536,36 +551,46 @@ Proof.
   intros Hn x. pose proof (to_ipath_rel _ _ _ Hn) as H. split; simpl; assumption.
 Qed.
 
-(* Main theorem: any program, any document, any start node. *)
+(* Main theorem, xmlquery as it is: any program in scope, any document, any start node. *)
 Theorem nav_programs_agree R (p : prog R) doc start :
   dom_wfb doc = true -> valid_start doc start = true -> ref_ok doc p (d_init start) ->
-  run_dom doc p (d_init start) = run_idr (to_idr doc) p (i_init (to_ipath doc start)).
+  run_dom false doc p (d_init start) = run_idr (to_idr doc) p (i_init (to_ipath doc start)).
 Proof.
   intros Hw Hs Hok. unfold valid_start in Hs.
   destruct (d_node doc start) as [n|] eqn:Hn; [|discriminate].
-  apply (nav_programs_agree_regs R p doc); auto. eapply init_rel; eauto.
+  apply (nav_programs_agree_regs R p false doc); auto. eapply init_rel; eauto.
+Qed.
+
+(* Main theorem, repaired reference: any program at all. *)
+Theorem nav_programs_agree_repaired R (p : prog R) doc start :
+  dom_wfb doc = true -> valid_start doc start = true ->
+  run_dom true doc p (d_init start) = run_idr (to_idr doc) p (i_init (to_ipath doc start)).
+Proof.
+  intros Hw Hs. unfold valid_start in Hs.
+  destruct (d_node doc start) as [n|] eqn:Hn; [|discriminate].
+  apply (nav_programs_agree_regs R p true doc); auto. eapply init_rel; eauto. exact I.
 Qed.
 
 (* No navigator operation panics or leaves the tree, on either binding. *)
-Theorem nav_no_panic R (p : prog R) doc start :
-  dom_wfb doc = true -> valid_start doc start = true -> ref_ok doc p (d_init start) ->
-  exists r, run_dom doc p (d_init start) = Some r /\
+Theorem nav_no_panic R (p : prog R) fx doc start :
+  dom_wfb doc = true -> valid_start doc start = true -> in_scope fx doc p (d_init start) ->
+  exists r, run_dom fx doc p (d_init start) = Some r /\
             run_idr (to_idr doc) p (i_init (to_ipath doc start)) = Some r.
 Proof.
   intros Hw Hs Hok. unfold valid_start in Hs.
   destruct (d_node doc start) as [n|] eqn:Hn; [|discriminate].
-  destruct (nav_programs_agree_regs R p doc _ _ Hw (init_rel _ _ _ Hn) Hok) as [He Hne].
-  destruct (run_dom doc p (d_init start)) as [r|] eqn:E; [|congruence].
+  destruct (nav_programs_agree_regs R p fx doc _ _ Hw (init_rel _ _ _ Hn) Hok) as [He Hne].
+  destruct (run_dom fx doc p (d_init start)) as [r|] eqn:E; [|congruence].
   exists r; split; [reflexivity|]. rewrite <- He. reflexivity.
 Qed.
 
 (* The step-level statement (DESIGN: nav_simulation). *)
-Theorem nav_simulation doc dv iv :
+Theorem nav_simulation fx doc dv iv :
   dom_wfb doc = true -> nav_rel doc dv iv ->
-  (forall o, quirk_obs doc dv o = false ->
-     exists v, d_obs doc dv o = Some v /\ i_obs (to_idr doc) iv o = Some v) /\
-  (forall m, quirk_move dv m = false ->
-     exists dv' iv' b, d_move doc dv m = Some (dv', b) /\
+  (forall o, fx = true \/ quirk_obs doc dv o = false ->
+     exists v, d_obs fx doc dv o = Some v /\ i_obs (to_idr doc) iv o = Some v) /\
+  (forall m, fx = true \/ quirk_move dv m = false ->
+     exists dv' iv' b, d_move fx doc dv m = Some (dv', b) /\
                        i_move (to_idr doc) iv m = Some (iv', b) /\ nav_rel doc dv' iv') /\
   (forall dw iw, nav_rel doc dw iw ->
      exists dv' iv' b, d_moveto dv dw = (dv', b) /\ i_moveto iv iw = (iv', b) /\
@@ -594,12 +619,12 @@ Definition q2_prog : prog bool :=
   Move 0 MChild (fun b => Ret b)))).
 
 Lemma q1_refuted :
-  run_dom q_doc q1_prog (d_init []) = Some (VStr []) /\
+  run_dom false q_doc q1_prog (d_init []) = Some (VStr []) /\
   run_idr (to_idr q_doc) q1_prog (i_init (to_ipath q_doc [])) = Some (VStr (hx "74")).
 Proof. split; vm_compute; reflexivity. Qed.
 
 Lemma q2_refuted :
-  run_dom q_doc q2_prog (d_init []) = Some false /\
+  run_dom false q_doc q2_prog (d_init []) = Some false /\
   run_idr (to_idr q_doc) q2_prog (i_init (to_ipath q_doc [])) = Some true.
 Proof. split; vm_compute; reflexivity. Qed.
 
@@ -607,9 +632,9 @@ Theorem nav_programs_agree_unguarded_refuted :
   exists doc start,
     dom_wfb doc = true /\ valid_start doc start = true /\
     (exists p : prog obs,
-       run_dom doc p (d_init start) <> run_idr (to_idr doc) p (i_init (to_ipath doc start))) /\
+       run_dom false doc p (d_init start) <> run_idr (to_idr doc) p (i_init (to_ipath doc start))) /\
     (exists p : prog bool,
-       run_dom doc p (d_init start) <> run_idr (to_idr doc) p (i_init (to_ipath doc start))).
+       run_dom false doc p (d_init start) <> run_idr (to_idr doc) p (i_init (to_ipath doc start))).
 Proof.
   exists q_doc, []. repeat split.
   - exists q1_prog. destruct q1_refuted as [-> ->]. discriminate.
@@ -621,6 +646,16 @@ Qed.
 Corollary nav_traces_agree ops doc start :
   dom_wfb doc = true -> valid_start doc start = true ->
   ref_ok doc (trace_prog ops []) (d_init start) ->
-  run_dom doc (trace_prog ops []) (d_init start) =
+  run_dom false doc (trace_prog ops []) (d_init start) =
   run_idr (to_idr doc) (trace_prog ops []) (i_init (to_ipath doc start)).
 Proof. apply nav_programs_agree. Qed.
+
+(* The repair changes nothing on executions of xmlquery that are in scope. *)
+Corollary repair_conservative R (p : prog R) doc start :
+  dom_wfb doc = true -> valid_start doc start = true -> ref_ok doc p (d_init start) ->
+  run_dom true doc p (d_init start) = run_dom false doc p (d_init start).
+Proof.
+  intros Hw Hs Hok.
+  rewrite (nav_programs_agree R p doc start Hw Hs Hok).
+  apply nav_programs_agree_repaired; assumption.
+Qed.
